@@ -196,15 +196,17 @@ def designated (cfg : Cfg) (cov : Cover) (l : List Mounted) (rootOwn : Option Ow
   | some o => some o
   | none => rootOwn
 
-def expected (cfg : Cfg) (cov : Cover) (l : List Mounted) (rootOwn : Option Own) (path : Bytes) (chain : Option Err) :
-    Option Outcome :=
+def expected (cfg : Cfg) (cov : Cover) (l : List Mounted) (rootOwn : Option Own) (path : Bytes) (chain : Option Err)
+    (left : Bytes := []) : Option Outcome :=
   match chain with
   | none => none
   | some e =>
     match designated cfg cov l rootOwn path with
     | none => some ⟨[.default], (match e with | .fiber c _ => c | .plain _ => 500), e.msg⟩
     | some o =>
-      if o.fails then some ⟨[.custom o.id], 500, b "Internal Server Error"⟩
+      -- "a failing error handler yields a 500": whatever status the route handler or the error handler
+      -- itself had set; a body written before the failure stays (`left`), else the status text
+      if o.fails then some ⟨[.custom o.id], 500, if left.isEmpty then b "Internal Server Error" else left⟩
       else some ⟨[.custom o.id], 418, b "eh" ++ natToDec o.id ++ b ":" ++ e.msg⟩
 
 /-- errors the server meets before any handler chain runs reach the same funnel as a framework
@@ -240,12 +242,12 @@ structure Seen where
 def customCalls (o : Outcome) : List (Nat × Nat) :=
   o.ran.filterMap fun r => match r with | .custom i => some (i, 1) | .default => none
 
-def specViolation (cfg : Cfg) (cov : Cover) (l : List Mounted) (rootOwn : Option Own) (path : Bytes) (seen : List Seen) :
-    Option String :=
+def specViolation (cfg : Cfg) (cov : Cover) (l : List Mounted) (rootOwn : Option Own) (path : Bytes) (seen : List Seen)
+    (left : Bytes := []) : Option String :=
   match seen with
   | [] => some "no-observation"
   | [s] =>
-    match expected cfg cov l rootOwn path s.chain with
+    match expected cfg cov l rootOwn path s.chain left with
     | none => if s.calls.isEmpty then none else some "exactly-once: an error handler ran although the chain returned no error"
     | some o =>
       if s.calls != customCalls o then
